@@ -8,6 +8,7 @@ mod common;
 mod gen;
 mod nsscope;
 mod props;
+mod selftest;
 mod spell;
 mod xmlread;
 mod xmlwrite;
@@ -15,7 +16,7 @@ mod xmlwrite;
 use common::*;
 
 fn usage() -> ! {
-    eprintln!("usage: xotmc <C01..C20> [--tier quick|thorough] [--replay <file>]");
+    eprintln!("usage: xotmc <C01..C20|selftest> [--tier quick|thorough] [--replay <file>]");
     std::process::exit(2)
 }
 
@@ -63,6 +64,9 @@ fn main() {
                 }
             }
         }
+    }
+    if prop == "SELFTEST" {
+        std::process::exit(selftest::run(tier));
     }
     macro_rules! dispatch {
         ($($id:literal => $m:ident),* $(,)?) => {
